@@ -474,6 +474,9 @@ def primary(tags, clause):
     import re
     if clause == "serializes-differently" and "default-not-applied" in tags:
         return "default-not-applied"      # equal by == (getattr falls back to the default), different __dict__
+    if "unsupported-mapper" in tags and "optional-unchecked" in tags and clause.startswith("raises:"):
+        # the class with the unsupported mapper is reached only through an Optional the classifier did not look into
+        return "optional-unchecked"
     for p in PRIORITY:
         if p in tags:
             if clause.startswith("raises:"):
@@ -1009,6 +1012,8 @@ def fast_tags(env, compact, cname=None):
     tags = set()
     if cname is None and compact and len(c["fields"]) == 1:
         req = [fd["name"] for fd in c["fields"]] if c.get("required") is None else c["required"]
+        req = [r for r in req if not any(fd["name"] == r and fd.get("default") is not None for fd in c["fields"])]
+        # (a field with a default is not a required field: the class's _required list does not hold it)
         if not (c.get("additional") is False and req == [c["fields"][0]["name"]]):
             tags.add("compact-conditions")
 
